@@ -26,7 +26,7 @@ def run(ctx):
         ctx.violation('a functor submitted to a non-cancelled set was dropped or ran more than once (it must be run by the caller now or exactly once before wait() returns): %s -> %s' % (T.d_line(d), o),
                       {'case': T.d_line(d), 'output': o, 'cmd': 'echo "<case>" | build/harness/h_taskset-*'})
     # probe families first: force-queued bulk children scheduled from a task of the set while another thread polls / waits; callers at the inline-depth cap on overloaded sets
-    probes = T.c02_probes() + T.depthcap_probes()
+    probes = T.c02_probes() + T.depthcap_probes() + T.exc_barrier_probes()
     ctx.cov['probe_cases'] = len(probes)
     T.lockstep_phase(ctx, exe, 'judge_C02', ['barrier', 'barrier', 'mixed', 'exc', 'cancel'], 70 if ctx.quick else 3000, witnesses=probes, on_verdict=on_verdict)
     T.decision_phase(ctx, exe, 'judge_C02_d', 40 if ctx.quick else 1500, on_verdict=on_d)
